@@ -272,6 +272,8 @@ def compare(script, per_op, prop, line_lo, line_hi, counters):
                      {"path": exp["path"], "value": exp["value"], "expected": exp["bytes"], "observed": got.get("bytes")}, line, facts)
                 break
             counters["write_ok" if w[1] == "1" else "write_refused"] = counters.get("write_ok" if w[1] == "1" else "write_refused", 0) + 1
+            pk = "probe.write_" + str(facts.get("scalar", "?")).lower() + ("_" + str(facts.get("via")) if facts.get("scalar") == "virtual" else "")
+            counters[pk] = counters.get(pk, 0) + 1
         elif kind == "bytes":
             if got.get("bytes") != exp["bytes"]:
                 fail("arena_differs_from_model", [], {"expected": exp["bytes"], "observed": got.get("bytes")}, line)
